@@ -399,6 +399,33 @@ def manager_swap_case(case):
     return tuple(map(tuple, one[2]))
 
 
+def wrapped_manager_case(case):
+    """A user scheduler class that wraps execute_systems() (to time it, to log it) and hands nothing back - the method never
+    had a documented return value: requests for n steps are still worth n single steps."""
+    def drive(single):
+        reset_library()
+        model = new_model(seed=1)
+        log = []
+        Rec = make_rec(log)
+
+        class Timed(Core.SystemManager):
+            def execute_systems(self, *a, **k):
+                super().execute_systems(*a, **k)          # (no return: there is nothing documented to return)
+        model.systems = Timed(model)
+        model.systems.add_system(Rec('r', model, 0, 0, DEFAULT, case['freq']))
+        if single:
+            for _ in range(case['n']):
+                model.execute()
+        else:
+            model.execute(case['n'])
+        return model.timestep, list(log)
+    one, many = drive(True), drive(False)
+    if one != many or one[0] != case['n']:
+        raise Violation(f'a scheduler subclass wrapping execute_systems(): execute({case["n"]}) against {case["n"]} single steps',
+                        expected=one, observed=many)
+    return tuple(one[1])
+
+
 def manager_swap_cases():
     for n in (2, 4):
         for at in range(n):
@@ -811,7 +838,9 @@ def run(ctx):
                 if ctx.full():
                     return
         for gen, fn, name in ((manager_swap_cases, manager_swap_case, 'manager_swap'), (rewind_cases, rewind_case, 'rewind'),
-                              (interrupted_cases, interrupted_case, 'interrupted'), (tuned_cases, tuned_case, 'tuned')):
+                              (interrupted_cases, interrupted_case, 'interrupted'), (tuned_cases, tuned_case, 'tuned'),
+                              (lambda: ({'leg': 'wrapped_manager', 'n': n, 'freq': f} for n in (1, 2, 9) for f in (1, 2)),
+                               wrapped_manager_case, 'wrapped_manager')):
             nn = 0
             for case in gen():
                 ctx.traces += 1
@@ -852,6 +881,9 @@ def replay(case):
         return
     if case['leg'] == 'interrupted':
         hbfs._guard(interrupted_case, case)
+        return
+    if case['leg'] == 'wrapped_manager':
+        hbfs._guard(wrapped_manager_case, case)
         return
     if case['leg'] == 'tuned':
         hbfs._guard(tuned_case, case)
